@@ -5,6 +5,8 @@ C08 — dates depend only on topology, sample times and mutation placement.
   tskit attribute read by any function of the dating path is in the list below; in particular no
   allele state, metadata, schema, population, provenance, migration, genotype/variant accessor,
   `tables`/`dump_tables`, existing mutation time/parent, `time_units`, nor any dynamic attribute access.
+* `sites_position_only_at_mutations`: `sites_position` is only ever read as
+  `sites_position[ts.mutations_site]` (never the whole per-site column).
 * `readSet_phased_no_individuals`: individual information is read only in
   `phasing.block_singletons` / `_block_singletons` (and `num_individuals` in `EP.__init__`), every
   use of a value derived from it sits behind `individuals_unphased[…]`, and that array is
@@ -59,6 +61,15 @@ theorem forbidden_not_read : ∀ a ∈ forbidden, a ∉ Gen.ReadSet.readSet := b
 
 /-- the two lists are disjoint, so the whitelist itself admits nothing forbidden -/
 theorem allowed_forbidden_disjoint : ∀ a ∈ forbidden, a ∉ allowedReads := by decide
+
+/-- **Site positions are read only for sites that carry a mutation**: every read of the per-site column
+`sites_position` on the dating path is indexed by `ts.mutations_site` (this is what makes
+`DatingInput.mutations` = (position of the mutation's site, node) the right projection, and
+mutation-free sites invisible). A read of the whole column, or one indexed by anything else (a "one
+mutation per site" shortcut, say), makes this fail. -/
+theorem sites_position_only_at_mutations :
+    Gen.ReadSet.sitesPositionIndex ≠ [] ∧
+    ∀ e ∈ Gen.ReadSet.sitesPositionIndex, e.2 = "ts.mutations_site" := by decide
 
 /-- **With phased singletons individual information cannot influence anything**: it is read in two
 functions only; in `_block_singletons` and in its wrapper every use of a value derived from
